@@ -1,7 +1,7 @@
 #!/bin/bash
 # lib/sweep.sh <tier> <seed> [ids...] : runs the registered checks one after the other, prints one line per check
 TIER=${1:-quick}; SEED=${2:-1}; shift 2
-IDS=${@:-C01 C02 C03 C04 C05 C08 C09 C10 C11 C12 C13 C14 C15 C16 C17 C18 C19 C20 X01 X02 X03 X04 X05 X06}
+IDS=${@:-C01 C02 C03 C04 C05 C08 C09 C10 C11 C12 C13 C14 C15 C16 C17 C18 C19 C20 X01 X02 X03 X04 X05 X06 X07 X08 X09 X10 X11 X12}
 cd /verif
 for p in $IDS; do
   t0=$(date +%s)
